@@ -43,7 +43,7 @@ class C17(SCheck):
     prop = "C17"
     level = "exploration"
     default_seed = 17017
-    N = {"quick": 220, "thorough": 6000}
+    N = {"quick": 400, "thorough": 6000}
     K = {"quick": 1, "thorough": 2}
     technique = "deterministic simulation (input-driven): generated .gitignore x tree, `git check-ignore --no-index` as the oracle for git's semantics; runs under the supervisor with permuted walk order, short reads of the .gitignore file and one injected errno at stat/open/read/getdents calls on source entries"
     rule = ("case = source tree over a small name vocabulary (so that patterns hit) with nested dirs, hidden files, symlinks to files and dirs; "
